@@ -452,6 +452,35 @@ Theorem C16_lattice_constraints_accepted_iff : forall c,
 Proof. exact accepts_lattice_constraints_iff. Qed.
 Print Assumptions C16_lattice_constraints_accepted_iff.
 
+(* units of the Lattice LAYER (accepts_lattice_layer_units = accepts_lattice_layer plus the add_weight
+   of build(): kernel of shape (prod(lattice_sizes), units)): a negative units is TensorFlow's ValueError
+   'Dimension -1 must be >= 0'; units = 0 is a ValueError too (the LinearInitializer's one column does not
+   fit a variable with zero columns) unless ONE joint unimodality covers all features (Keras random_uniform
+   fall-back); for units >= 1 nothing is added to accepts_lattice_layer. *)
+Theorem C16_reject_lattice_layer_negative_units : forall c u,
+  u < 0 -> accepts_lattice_layer_units c u = false.
+Proof. exact reject_lattice_layer_negative_units. Qed.
+Print Assumptions C16_reject_lattice_layer_negative_units.
+Theorem C16_reject_lattice_layer_zero_units : forall c,
+  joint_covers_all (zlen (l_sizes c)) (l_junimod c) = false -> accepts_lattice_layer_units c 0 = false.
+Proof. exact reject_lattice_layer_zero_units. Qed.
+Print Assumptions C16_reject_lattice_layer_zero_units.
+Theorem C16_lattice_layer_positive_units : forall c u,
+  1 <= u -> accepts_lattice_layer_units c u = accepts_lattice_layer c.
+Proof. exact lattice_layer_units_positive. Qed.
+Print Assumptions C16_lattice_layer_positive_units.
+Theorem C16_accepted_lattice_layer_units_wellformed : forall c u,
+  accepts_lattice_layer_units c u = true ->
+  accepts_lattice_layer c = true /\ 0 <= u /\
+  (joint_covers_all (zlen (l_sizes c)) (l_junimod c) = true \/ 1 <= u).
+Proof. exact accepts_lattice_layer_units_sound. Qed.
+Print Assumptions C16_accepted_lattice_layer_units_wellformed.
+(* as is (reported; same family as known finding D48): units = 0 is built when one joint unimodality covers
+   all features - the first projection then fails with InvalidArgumentError *)
+Theorem C16_reject_lattice_layer_zero_units_refuted : exists c, accepts_lattice_layer_units c 0 = true.
+Proof. exact lattice_layer_zero_units_accepted. Qed.
+Print Assumptions C16_reject_lattice_layer_zero_units_refuted.
+
 (* ---- Linear ---------------------------------------------------------------- *)
 Theorem C16_reject_linear_monotonicities_length : forall c m n,
   n_monos c = Some m -> n_num_input_dims c = Some n -> zlen m <> n -> accepts_linear c = false.
@@ -511,6 +540,26 @@ Theorem C16_accepted_linear_wellformed : forall c, accepts_linear c = true -> li
 Proof. exact accepts_linear_sound. Qed.
 Print Assumptions C16_accepted_linear_wellformed.
 
+(* the Linear LAYER (accepts_linear_layer = accepts_linear plus add_weight(shape=[num_input_dims, units])):
+   a negative units or num_input_dims is TensorFlow's ValueError; 0 is accepted (empty kernel) *)
+Theorem C16_reject_linear_layer_negative_units : forall c u,
+  u < 0 -> accepts_linear_layer c u = false.
+Proof. exact reject_linear_layer_negative_units. Qed.
+Print Assumptions C16_reject_linear_layer_negative_units.
+Theorem C16_reject_linear_layer_negative_num_input_dims : forall c u n,
+  n_num_input_dims c = Some n -> n < 0 -> accepts_linear_layer c u = false.
+Proof. exact reject_linear_layer_negative_num_input_dims. Qed.
+Print Assumptions C16_reject_linear_layer_negative_num_input_dims.
+Theorem C16_linear_layer_nonnegative_sizes : forall c u n,
+  0 <= u -> n_num_input_dims c = Some n -> 0 <= n -> accepts_linear_layer c u = accepts_linear c.
+Proof. exact linear_layer_sizes_nonnegative. Qed.
+Print Assumptions C16_linear_layer_nonnegative_sizes.
+Theorem C16_accepted_linear_layer_wellformed : forall c u,
+  accepts_linear_layer c u = true ->
+  accepts_linear c = true /\ 0 <= u /\ (forall n, n_num_input_dims c = Some n -> 0 <= n).
+Proof. exact accepts_linear_layer_sound. Qed.
+Print Assumptions C16_accepted_linear_layer_wellformed.
+
 (* ---- PWLCalibration -------------------------------------------------------- *)
 Theorem C16_reject_pwl_too_few_keypoints : forall c ks,
   p_keypoints c = Some ks -> zlen ks < 2 -> accepts_pwl c = false.
@@ -551,9 +600,32 @@ Theorem C16_reject_pwl_layer_bad : forall c, p_layer c = true ->
 Proof. exact reject_pwl_layer_bad. Qed.
 Print Assumptions C16_reject_pwl_layer_bad.
 
+(* convexity=None: rejected by the layer's constructor since /repo commit adb1223 (it used to be accepted and
+   read as a convexity constraint by the projection's `convexity != 0`; finding D64) *)
+Theorem C16_reject_pwl_layer_convexity_none : forall c,
+  p_layer c = true -> p_convex c = None -> accepts_pwl c = false.
+Proof. exact reject_pwl_layer_convexity_none. Qed.
+Print Assumptions C16_reject_pwl_layer_convexity_none.
+
 Theorem C16_accepted_pwl_wellformed : forall c, accepts_pwl c = true -> pwl_accepted c.
 Proof. exact accepts_pwl_sound. Qed.
 Print Assumptions C16_accepted_pwl_wellformed.
+
+(* units of the PWLCalibration LAYER (accepts_pwl_layer = accepts_pwl plus add_weight(shape=[.., units])):
+   units < 0 is TensorFlow's ValueError; units = 0 raises InvalidArgumentError at build (decision "reject";
+   the exception class is reported by the harness) *)
+Theorem C16_reject_pwl_layer_units_below_1 : forall c u,
+  p_layer c = true -> u < 1 -> accepts_pwl_layer c u = false.
+Proof. exact reject_pwl_layer_units_below_1. Qed.
+Print Assumptions C16_reject_pwl_layer_units_below_1.
+Theorem C16_pwl_layer_positive_units : forall c u,
+  1 <= u -> accepts_pwl_layer c u = accepts_pwl c.
+Proof. exact pwl_layer_units_positive. Qed.
+Print Assumptions C16_pwl_layer_positive_units.
+Theorem C16_accepted_pwl_layer_wellformed : forall c u,
+  accepts_pwl_layer c u = true -> accepts_pwl c = true /\ (p_layer c = true -> 1 <= u).
+Proof. exact accepts_pwl_layer_sound. Qed.
+Print Assumptions C16_accepted_pwl_layer_wellformed.
 
 (* ---- CategoricalCalibration ------------------------------------------------ *)
 Theorem C16_reject_categorical_output_min_above_max : forall c lo hi,
@@ -585,6 +657,27 @@ Print Assumptions C16_reject_categorical_no_source.
 Theorem C16_accepted_categorical_wellformed : forall c, accepts_categorical c = true -> categorical_accepted c.
 Proof. exact accepts_categorical_sound. Qed.
 Print Assumptions C16_accepted_categorical_wellformed.
+
+(* the CategoricalCalibration LAYER (accepts_categorical_layer = accepts_categorical plus
+   add_weight(shape=[num_buckets, units])): a negative num_buckets or units is TensorFlow's ValueError;
+   0 is accepted (num_buckets = 0: known finding D48) *)
+Theorem C16_reject_categorical_layer_negative_units : forall c u,
+  u < 0 -> accepts_categorical_layer c u = false.
+Proof. exact reject_categorical_layer_negative_units. Qed.
+Print Assumptions C16_reject_categorical_layer_negative_units.
+Theorem C16_reject_categorical_layer_negative_num_buckets : forall c u n,
+  c_buckets c = Some n -> n < 0 -> accepts_categorical_layer c u = false.
+Proof. exact reject_categorical_layer_negative_num_buckets. Qed.
+Print Assumptions C16_reject_categorical_layer_negative_num_buckets.
+Theorem C16_categorical_layer_nonnegative_sizes : forall c u n,
+  0 <= u -> c_buckets c = Some n -> 0 <= n -> accepts_categorical_layer c u = accepts_categorical c.
+Proof. exact categorical_layer_sizes_nonnegative. Qed.
+Print Assumptions C16_categorical_layer_nonnegative_sizes.
+Theorem C16_accepted_categorical_layer_wellformed : forall c u,
+  accepts_categorical_layer c u = true ->
+  accepts_categorical c = true /\ 0 <= u /\ (forall n, c_buckets c = Some n -> 0 <= n).
+Proof. exact accepts_categorical_layer_sound. Qed.
+Print Assumptions C16_accepted_categorical_layer_wellformed.
 
 (* ---- KroneckerFactoredLattice ---------------------------------------------- *)
 Theorem C16_reject_kfl_size : forall c, k_size c <> 0 -> k_size c < 2 -> accepts_kfl c = false.
@@ -774,6 +867,59 @@ Example C16_canonical_accepted_lattice_example :
   accepts_lattice c = true.
 Proof. cbv zeta. repeat split; vm_compute; reflexivity. Qed.
 
+(* Integral floats.  The canonicalisers accept a float that == an accepted int and return it as it
+   is (canonicalize_monotonicity(1.0) = 1.0): the decide_* functions of Harness/H_C16.v therefore
+   read every canonicaliser output through norm_num / norm_nums / norm_trusts (an integral VFloat
+   becomes the VInt it equals; trust DIMENSIONS are left alone, the code tests isinstance(dim, int))
+   before typing it.  The normalisation changes no == test against an int, a canonical scalar is
+   never stuck after it, and the canonical ranges above hold for this reading too. *)
+From TFL Require Import Proofs.VerifyFacts3.
+Theorem C16_float_normalisation_preserves_int_equality : forall w k,
+  py_eq (norm_num w) (VInt k) = py_eq w (VInt k).
+Proof. exact norm_num_py_eq_int. Qed.
+Print Assumptions C16_float_normalisation_preserves_int_equality.
+Theorem C16_canonical_monotonicity_never_stuck : forall v ad w,
+  canonicalize_monotonicity v ad = Ok w ->
+  exists o, conv_scalar (rmap norm_num (canonicalize_monotonicity v ad)) = CVal o.
+Proof. exact monotonicity_never_stuck. Qed.
+Print Assumptions C16_canonical_monotonicity_never_stuck.
+Theorem C16_canonical_convexity_never_stuck : forall v w,
+  canonicalize_convexity v = Ok w ->
+  exists o, conv_scalar (rmap norm_num (canonicalize_convexity v)) = CVal o.
+Proof. exact convexity_never_stuck. Qed.
+Print Assumptions C16_canonical_convexity_never_stuck.
+Theorem C16_canonical_monotonicity_typed_float : forall v ad o,
+  conv_scalar (rmap norm_num (canonicalize_monotonicity v ad)) = CVal o -> oz o = -1 \/ oz o = 0 \/ oz o = 1.
+Proof. exact link_monotonicity_norm. Qed.
+Print Assumptions C16_canonical_monotonicity_typed_float.
+Theorem C16_canonical_convexity_typed_float : forall v o,
+  conv_scalar (rmap norm_num (canonicalize_convexity v)) = CVal o -> oz o = -1 \/ oz o = 0 \/ oz o = 1.
+Proof. exact link_convexity_norm. Qed.
+Print Assumptions C16_canonical_convexity_typed_float.
+Theorem C16_canonical_monotonicities_typed_float : forall v ad ms,
+  conv_zs (rmap norm_nums (canonicalize_monotonicities v ad)) = CVal (Some ms) ->
+  (forall m, In m ms -> m = 0 \/ m = 1 \/ m = -1) /\
+  (py_truthy ad = false -> forall m, In m ms -> m = 0 \/ m = 1).
+Proof. exact link_monotonicities_norm. Qed.
+Print Assumptions C16_canonical_monotonicities_typed_float.
+Theorem C16_canonical_trust_directions_typed_float : forall v ts,
+  conv_trusts (rmap norm_trusts (canonicalize_trust v)) = CVal ts -> forall a b d, In (a, b, d) ts -> d = 1 \/ d = -1.
+Proof. exact link_trusts_norm. Qed.
+Print Assumptions C16_canonical_trust_directions_typed_float.
+Theorem C16_canonical_accepted_lattice_is_valid_float : forall vm ve vt c units,
+  conv_zs (rmap norm_nums (canonicalize_monotonicities vm (VBool false))) = CVal (l_monos c) ->
+  conv_trusts (rmap norm_trusts (canonicalize_trust ve)) = CVal (l_edge c) ->
+  conv_trusts (rmap norm_trusts (canonicalize_trust vt)) = CVal (l_trap c) ->
+  accepts_lattice c = true -> (1 <= units)%nat ->
+  LatticeSpec.cfg_valid (conv_lattice c units).
+Proof. exact canonical_accepted_lattice_cfg_valid_norm. Qed.
+Print Assumptions C16_canonical_accepted_lattice_is_valid_float.
+Example C16_float_spellings_example :
+  conv_scalar (rmap norm_num (canonicalize_monotonicity (VFloat 1) (VBool true))) = CVal (Some 1) /\
+  conv_scalar (rmap norm_num (canonicalize_convexity (VFloat 0))) = CVal (Some 0) /\
+  conv_scalar (canonicalize_monotonicity (VFloat 1) (VBool true)) = CStuck.
+Proof. exact float_spellings_typed. Qed.
+
 (* ========================================================================== *)
 (* Second part of Model/Verify.v: RTL, CDF, regulariser objects, premade       *)
 (* verify_config (Proofs/VerifyFacts2.v).  Same reading: accepts_* = true means *)
@@ -819,7 +965,9 @@ Print Assumptions C16_pwl_regularizer_always_accepted.
    t_num / t_rank / t_size = num_lattices / lattice_rank / lattice_size; rtl_n_inputs = number of
    inputs in the input-shape dict; t_param, t_init = parameterization and kernel_initializer as
    the code's membership tests classify them; t_regs = kernel_regularizer (RegTuple: one
-   (name, l1, l2) tuple, not inspected by rtl_lib; RegList: the list form).  The sub-layer checks
+   (name, l1, l2) tuple, not inspected by rtl_lib; RegList: the list form; RegTuples: a tuple OF
+   regulariser tuples - the empty tuple included -, not inspected by rtl_lib either and iterated
+   by the Lattice sub-layers).  The sub-layer checks
    (parameterization, initialiser, init range, regulariser names and per-dimension amounts,
    num_terms) are reached only when there is a lattice: 1 <= num_lattices. *)
 Theorem C16_reject_rtl_lattice_size_below_2 : forall c,
@@ -907,6 +1055,20 @@ Theorem C16_accepted_rtl_wellformed : forall c,
   accepts_rtl c = true -> rtl_accepted c.
 Proof. exact accepts_rtl_sound. Qed.
 Print Assumptions C16_accepted_rtl_wellformed.
+(* kernel_regularizer as a tuple of regulariser tuples: every entry must be a 3-tuple with a known name *)
+Theorem C16_reject_rtl_tuple_of_tuples_entry_bad : forall c es e,
+  1 <= t_num c -> t_param c = ParamAll ->
+  t_regs c = RegTuples es -> In e es -> (re_len e <> 3 \/ re_name_known e = false) -> accepts_rtl c = false.
+Proof. exact reject_rtl_tuple_of_tuples_entry. Qed.
+Print Assumptions C16_reject_rtl_tuple_of_tuples_entry_bad.
+(* as is: rtl_lib's "l1 / l2 must be a single float" applies to the list form only: the same int amount
+   is accepted inside a tuple of tuples and rejected inside a list *)
+Theorem C16_reject_rtl_tuple_of_tuples_int_amount_refuted : exists c e,
+  t_regs c = RegTuples [e] /\ re_l1 e = AmtInt /\ 1 <= t_num c /\ accepts_rtl c = true /\
+  accepts_rtl (mkRTL (t_num c) (t_rank c) (t_size c) (t_omin c) (t_omax c) (t_interp_ok c) (t_param c) (t_init c)
+                     (RegList [e]) (t_init_min c) (t_init_max c) (t_terms c) (t_keys_ok c) (t_inc c) (t_unc c)) = false.
+Proof. exact rtl_tuple_of_tuples_not_inspected. Qed.
+Print Assumptions C16_reject_rtl_tuple_of_tuples_int_amount_refuted.
 (* as is: num_lattices < 0 and lattice_rank < 0 pass the product test and nothing else is checked (reported) *)
 Theorem C16_reject_rtl_negative_counts_refuted : exists c, t_num c < 0 /\ t_rank c < 0 /\ t_param c = ParamOther /\ accepts_rtl c = true.
 Proof. exact rtl_negative_counts_accepted. Qed.
@@ -1127,6 +1289,11 @@ Example C16_accepted_rtl_example :
   accepts_rtl (mkRTL 2 2 2 (Some (0#1)) (Some (1#1))%Q true ParamAll InitLatticeRanged
                      (RegList [mkReg 3 true AmtFloat AmtFloat]) None None 2 true (Some 1) (Some 2)) = true.
 Proof. exact rtl_accepted_example. Qed.
+(* the empty tuple: no regulariser for 'all_vertices', but "is not None" for 'kronecker_factored' *)
+Example C16_rtl_empty_tuple_regularizer_example :
+  accepts_rtl (mkRTL 2 2 2 None None true ParamAll InitLatticeRanged (RegTuples []) None None 2 true None (Some 3)) = true /\
+  accepts_rtl (mkRTL 2 2 2 None None true ParamKfl InitKfl (RegTuples []) None None 2 true None (Some 3)) = false.
+Proof. exact rtl_empty_tuple_regularizer. Qed.
 Example C16_accepted_cdf_example : accepts_cdf (mkCDF 5 4 2 6 true true true true true) = true.
 Proof. exact cdf_accepted_example. Qed.
 Example C16_lattice_regularizer_example : accepts_lattice_regularizer (mkLRg [2; 3] (AmtSeq 2) AmtFloat) = true /\
